@@ -291,6 +291,18 @@ def caller_buffer_access(check, cdb):
                                                            c.get("range", {}).get("begin", {}).get("line", "?")))
                         else:
                             nu += 1
+            # a caller buffer seen through a vector pointer: `*p` / `p[k]` of type __m128i is an aligned access
+            for c in crules.walk(crules.body_of(fd)):
+                k = c.get("kind")
+                qt = c.get("type", {}).get("qualType", "")
+                if k in ("ArraySubscriptExpr", "UnaryOperator") and ("__m128i" in qt or "__m256i" in qt) and "*" not in qt:
+                    if k == "UnaryOperator" and c.get("opcode") != "*":
+                        continue
+                    roots = set(crules.ref_name(x) for x in crules.walk(c) if x.get("kind") == "DeclRefExpr")
+                    if roots & alias:
+                        bad.append("%s of a vector pointer into `%s` line %s" % (
+                            "subscript" if k == "ArraySubscriptExpr" else "dereference", sorted(roots & alias)[0],
+                            c.get("range", {}).get("begin", {}).get("line", "?")))
             total_u += nu
             check.ob("M", "M|c|unaligned|" + fname, not bad, src, fd.get("loc", {}).get("line", 0),
                      extracted=("aligned access to a caller buffer: " + "; ".join(bad[:3])) if bad else
